@@ -1,13 +1,18 @@
 (* C02 - CBOR validation verdicts equal RFC 8610 semantics on the core language, independently of the encoding.
    Same specification and decider as C01 with jm = false (integers and floats are distinct items),
    over values with byte strings, tags, simple values, arbitrary keys and the full 64-bit range. *)
-From Cddl Require Import Base.Bytes Cbor.Wire Cbor.Wf Sem.Syntax Sem.Validator Sem.Sem Sem.Decides Sem.CborTie.
+From Cddl Require Import Base.Bytes Cbor.Wire Cbor.Wf Sem.Syntax Sem.Validator Sem.Sem Sem.Decides Sem.Complete Sem.CborTie.
 Open Scope Z_scope.
 
 Theorem C02_cbor : forall e f t v b,
   vt f false e t v = Some b ->
   (b = true <-> MatchT false e t v) /\ (b = false <-> FailT false e t v).
 Proof. exact (vmodel_decides false). Qed.
+
+Theorem C02_exact : forall e t v,
+  (MatchT false e t v <-> exists f, vt f false e t v = Some true) /\
+  (FailT false e t v <-> exists f, vt f false e t v = Some false).
+Proof. exact (vmodel_exact false). Qed.
 
 (* decoding (the C11 model, proven to implement RFC 8949) followed by validation gives the same verdict
    for every two well-formed encodings of the same item: definite/indefinite lengths, head widths, float widths *)
